@@ -38,6 +38,18 @@ fn main() {
 				}
 				i += 1;
 			}
+			// whole-check watchdog: a check that hangs (a change of the library that
+			// makes the process spin, say) gives no verdict instead of never returning
+			let limit: u64 = std::env::var("HLV_WATCHDOG_S").ok().and_then(|s| s.parse().ok()).unwrap_or(match tier {
+				Tier::Quick => 20 * 60,
+				Tier::Thorough => 120 * 60,
+			});
+			let idc = id.clone();
+			std::thread::spawn(move || {
+				std::thread::sleep(std::time::Duration::from_secs(limit));
+				println!("INCONCLUSIVE: check {idc} did not finish within {limit} s (watchdog): no verdict");
+				std::process::exit(2);
+			});
 			props::run_check(id, tier, seed)
 		}
 		Some("dump-types-replay") => {
